@@ -196,9 +196,23 @@ func buildRequest(r *rand.Rand, name string, cl *jrClass, T int) (doc map[string
 		if len(given) > 0 { // a duplicate of a given parameter with the same value
 			params = append(params, params[0])
 		}
+		// a look-alike: the name of a declared parameter in another letter case is NOT that parameter (a missing one
+		// stays missing and is reported; a given one is not shadowed by a look-alike listed before it)
+		if len(missing) > 0 {
+			params = append([]map[string]interface{}{{"Name": swapCase(missing[0]), "Value": 7.75}}, params...)
+		} else if len(given) > 0 {
+			params = append([]map[string]interface{}{{"Name": swapCase(given[0]), "Value": 7.75}}, params...)
+		}
 	}
 	if params != nil {
-		doc["Parameters"] = params
+		lst := []interface{}{}
+		for _, e := range params {
+			lst = append(lst, e)
+		}
+		if cl.Class.Extras {
+			lst = append(lst, nil) // a null entry is an entry without a name: superfluous
+		}
+		doc["Parameters"] = lst
 	}
 	var inputs []map[string]interface{}
 	ni := len(desc.Inputs)
@@ -262,9 +276,47 @@ func buildRequest(r *rand.Rand, name string, cl *jrClass, T int) (doc map[string
 		}
 	}
 	if inputs != nil {
-		doc["Inputs"] = inputs
+		lst := []interface{}{}
+		for _, e := range inputs {
+			lst = append(lst, e)
+		}
+		if cl.Class.Extras {
+			if len(inMissing) > 0 {
+				// a look-alike of a missing input (same length as the others): the input stays missing (zero, reported)
+				lst = append([]interface{}{map[string]interface{}{"Name": swapCase(inMissing[0]), "Values": lookalikeSeries(T)}}, lst...)
+			}
+			if len(lst) > 1 {
+				lst = append(lst[:1], append([]interface{}{nil}, lst[1:]...)...) // a null entry between two entries
+			} else {
+				lst = append(lst, nil)
+			}
+		}
+		doc["Inputs"] = lst
 	}
 	return
+}
+
+func swapCase(name string) string {
+	b := []byte(name)
+	for i, c := range b {
+		switch {
+		case c >= 'a' && c <= 'z':
+			b[i] = c - 32
+			return string(b)
+		case c >= 'A' && c <= 'Z':
+			b[i] = c + 32
+			return string(b)
+		}
+	}
+	return name + "_"
+}
+
+func lookalikeSeries(T int) []float64 {
+	v := make([]float64, T)
+	for i := range v {
+		v[i] = 3.5 + float64(i)
+	}
+	return v
 }
 
 func jrGen(args []string) error {
@@ -322,6 +374,25 @@ func jrGen(args []string) error {
 					Given: given, Missing: missing, InGiven: ig, InMiss: im, Extreme: extreme})
 			}
 		}
+	}
+	// one LONG request (series of 140 000 values, a document of several megabytes): "any series lengths"
+	for ci := range cls {
+		cl := &cls[ci]
+		if cl.Class.Form == "malformed" || cl.Class.Name != "known" || cl.Class.Tables || cl.Class.Params != "all" || cl.Class.Inputs != "all" || cl.Class.Extras || cl.Class.PVals == "zero" || cl.Response.Kind != "result" {
+			continue
+		}
+		cname := fmt.Sprintf("%s/%s/tables=%v/params=%s/extras=%v/inputs=%s/long", cl.Class.Form, cl.Class.Name, cl.Class.Tables, cl.Class.Params, cl.Class.Extras, cl.Class.Inputs)
+		for _, name := range []string{"RunoffCoefficient", "Sum"} {
+			doc, given, missing, ig, im, extreme := buildRequest(r, name, cl, 140000)
+			if extreme {
+				continue
+			}
+			b, _ := json.Marshal(doc)
+			id++
+			enc.Encode(jrRequest{ID: id, Class: cname, Expect: cl.Response.Kind, Model: name, Split: id%2 == 0, Bytes: b,
+				Given: given, Missing: missing, InGiven: ig, InMiss: im, Extreme: extreme})
+		}
+		break
 	}
 	// the shortest byte strings, systematically: every single byte, and every two-byte string that starts like
 	// something a reader may special-case (byte order marks, UTF-8 lead bytes, the first characters of JSON values)
